@@ -309,11 +309,28 @@ func renderDecl(h *hier, d int, format string) string {
 }
 
 func renderSchema(h *hier, format string) string {
+	nl := format == "edi-nl" // EDI with the line feed as segment delimiter
+	if nl {
+		format = "edi"
+	}
 	var ds []string
 	for _, k := range h.kids(0) {
 		ds = append(ds, renderDecl(h, k, format))
 	}
 	body := strings.Join(ds, ", ")
+	fd := ""
+	if nl {
+		fd = `"segment_delimiter": "\n", "element_delimiter": "*", "segment_declarations": [` + body + `]`
+	}
+	switch {
+	case nl:
+	default:
+		fd = renderFileDecl(format, body)
+	}
+	return renderSchemaWith(h, format, fd)
+}
+
+func renderFileDecl(format, body string) string {
 	fd := ""
 	switch format {
 	case "csv2":
@@ -323,6 +340,10 @@ func renderSchema(h *hier, format string) string {
 	case "edi":
 		fd = `"segment_delimiter": "~", "element_delimiter": "*", "segment_declarations": [` + body + `]`
 	}
+	return fd
+}
+
+func renderSchemaWith(h *hier, format, fd string) string {
 	fx := ""
 	if h.Flt {
 		fx = `"xpath": ` + jstr(hierFilter) + `, `
@@ -336,7 +357,21 @@ func renderSchema(h *hier, format string) string {
 // insignificant separators (blank lines) interspersed.
 func renderInput(units []string, format string, variant int) string {
 	var sb strings.Builder
+	nl := format == "edi-nl"
+	if nl {
+		format = "edi"
+	}
 	for i, u := range units {
+		if format == "edi" && variant >= 4 && u == "X" {
+			// an undeclared unit that is nothing but non-ASCII characters (no elements): a segment like any other
+			sb.WriteString(map[int]string{4: "日本", 5: "\u00a0"}[variant])
+			if nl {
+				sb.WriteString("\n")
+			} else if i < len(units)-1 {
+				sb.WriteString("~")
+			} // (variant 5: as the last unit it is unterminated trailing data)
+			continue
+		}
 		switch format {
 		case "csv2":
 			sb.WriteString(fmt.Sprintf("%s,%d", u, i+1))
@@ -352,7 +387,7 @@ func renderInput(units []string, format string, variant int) string {
 		}
 		last := i == len(units)-1
 		term := "\n"
-		if format == "edi" {
+		if format == "edi" && !nl {
 			term = "~"
 		}
 		if variant == 1 && last {
@@ -485,23 +520,27 @@ func c05Replay(args []string) int {
 				variants = []int{0, 1}
 			}
 			if impl == "edi" && hasX(c.Input) {
-				variants = []int{0, 1, 2, 3}
+				variants = []int{0, 1, 2, 3, 4, 5}
 			}
 			for _, variant := range variants {
+				format := impl
+				if impl == "edi" && variant == 4 {
+					format = "edi-nl"
+				}
 				var obs c05Obs
 				expOut, expErr := viewOf(&c.H, c.Out, impl), nameOfDecl(&c.H, c.Errd, impl)
 				var pv string
 				if impl == "recreader" {
 					pv, _ = guarded(0, func() { obs = runScripted(&c) })
 				} else {
-					sch, e := getSchema(&c.H, impl)
+					sch, e := getSchema(&c.H, format)
 					if e != nil {
 						violation("C05", "schema-rejected", "a well-formed hierarchy was rejected by "+impl+": "+e.Error(),
-							M{"impl": impl, "case": c, "schema": renderSchema(&c.H, impl)})
+							M{"impl": impl, "case": c, "schema": renderSchema(&c.H, format)})
 						nviol++
 						continue
 					}
-					pv, _ = guarded(0, func() { obs = runSchema(sch, &c, impl, variant) })
+					pv, _ = guarded(0, func() { obs = runSchema(sch, &c, format, variant) })
 				}
 				sum.eval(c05Nontrivial(&c), M{"c": c, "i": impl, "v": variant})
 				if pv != "" {
@@ -526,9 +565,9 @@ func c05Replay(args []string) int {
 									if impl == "recreader" {
 										return ""
 									}
-									return renderSchema(&c.H, impl)
+									return renderSchema(&c.H, format)
 								}(),
-								"input": renderInput(c.Input, impl, variant)})
+								"input": renderInput(c.Input, format, variant)})
 					}
 					nviol++
 				}
